@@ -1,4 +1,4 @@
-CONSTANTS N = 4  Byz = {4}  MaxView = 6  MaxBlocksPerView = 2  Ruleset = "nolock"  LockRule = TRUE  EquivViews = {4}
+CONSTANTS N = 4  Byz = {4}  MaxView = 6  MaxBlocksPerView = 2  Ruleset = "chained"  Weak = "nolock"  Prefix = 3  EquivViews = {}  DumpEvery = 0
 SPECIFICATION SpecOrdered
 INVARIANT Agreement
-INVARIANT OneVotePerView
+VIEW view
